@@ -316,6 +316,41 @@ def proxy_enum_sweep(ctx, keyfn=None):
                     ctx.count("proxy-enum-roundtrip")
 
 
+def proxy_exact_integers(ctx):
+    """values that ARE representable are written exactly: every font size from 1 pt to 60 pt in hundredths of a point, every
+    line spacing / space before in hundredths of a point up to 40 pt, every 127th EMU margin - assigned as the Length the
+    caller would use and compared with the integer in the XML (a conversion through floats loses one unit on a few percent)"""
+    from pptx.util import Centipoints, Emu
+
+    from harness.props.c09 import build_deck
+
+    prs = build_deck()
+    sp = prs.slides[1].shapes[0]
+    para = sp.text_frame.paragraphs[0]
+    run = para.runs[0]
+    A = "{http://schemas.openxmlformats.org/drawingml/2006/main}"
+    for cp in range(100, 6001):
+        run.font.size = Centipoints(cp)
+        got = run._r.find(A + "rPr").get("sz")
+        if got != str(cp):
+            ctx.fail("inexact:font.size", f"font.size = Centipoints({cp}) is written sz={got!r}", {"property": "font.size", "value": cp})
+            break
+    for cp in range(0, 4001, 3):
+        para.space_before = Centipoints(cp)
+        got = para._p.find(A + "pPr").find(A + "spcBef").find(A + "spcPts").get("val")
+        if got != str(cp):
+            ctx.fail("inexact:paragraph.space_before", f"space_before = Centipoints({cp}) is written val={got!r}", {"property": "space_before", "value": cp})
+            break
+    for emu in list(range(0, 300000, 127)) + [2**31 - 1, 914400, 91440, 45720]:
+        sp.text_frame.margin_left = Emu(emu)
+        got = sp.text_frame._txBody.find(A + "bodyPr").get("lIns")
+        if got != str(emu) and not (got is None and int(sp.text_frame.margin_left) == emu):   # the default is not written
+            ctx.fail("inexact:text_frame.margin_left", f"margin_left = Emu({emu}) is written lIns={got!r}", {"property": "margin_left", "value": emu})
+            break
+    ctx.count("exact-integer-assignments", 5901 + 1334 + 2367)
+    ctx.case(key=("proxy-exact-integers",))
+
+
 def proxy_lexical_reads(ctx):
     """"every schema-valid lexical form met in a document can be read" - through the PROXY properties, some of which read
     an attribute by hand instead of through its declaration: universal measures and percent strings put into the XML"""
@@ -485,6 +520,7 @@ def correspond(ctx):
                 ctx.fail(f"unreadable:{name}:{lex}", f"{st.__name__}.from_xml({lex!r}) raised {type(e).__name__} although the form is valid for {xt[1]} ({uses[0]})",
                          {"type": name, "lexical": lex})
     attr_history_independence(ctx)
+    proxy_exact_integers(ctx)
     rejected_is_noop(ctx)
     proxy_rejected_noop(ctx)
     out = ctx.driver.run(lines)
